@@ -195,6 +195,8 @@ package parquet
 //@   ensures[C10] err == nil ==> (rfault ==> old(rfault))
 //@   ensures[C08] err == nil ==> srcPos == old(srcPos) + thriftLen(srcB, old(srcPos)) && thriftLen(srcB, old(srcPos)) >= 1
 //@   ensures[C08] err == nil && old(isRC(r)) ==> asRC(r).n == old(asRC(r).n) + thriftLen(srcB, old(srcPos))
+//@   ensures[C16] err == nil ==> res0.CompressedPageSize == phComp(srcB, old(srcPos)) && ((res0.DataPageHeader != nil) <==> phIsData(srcB, old(srcPos)))
+//@   ensures[C16] err == nil && res0.DataPageHeader != nil ==> res0.DataPageHeader.NumValues == phNV(srcB, old(srcPos))
 
 // C18: nothing of a page is interpreted before its header has been validated
 //@ pred pageOK(ph) := ph.Type == 0 && ph.DataPageHeader != nil && ph.DataPageHeader.Encoding == 0
@@ -296,3 +298,34 @@ package parquet
 //@   modifies nothing
 //@ func (*OptionalField).Path
 //@   modifies nothing
+
+// ---- introspection (C16): exactly one header per page of the chunk, in file order,
+// with the sizes and counts an independent walk of the bytes finds
+
+//@ pred hdrIs(h, p) := h.CompressedPageSize == phComp(srcB, p) && h.DataPageHeader != nil && h.DataPageHeader.NumValues == phNV(srcB, p)
+
+//@ func PageHeadersAtOffset
+//@   requires external(r)
+//@   requires forall u in 0..srcSize + 1: phIsData(srcB, pagePos(srcB, o, u))
+//@   safety[C16] nil-deref
+//@   modifies heap("parquet.readCounter"), srcPos, rfault, vPage, vDefs
+//@   ensures[C10] err == nil ==> (rfault ==> old(rfault))
+//@   ensures[C16] err == nil ==> #res0 >= 1 && nvSum(srcB, o, #res0) >= n && srcPos == pagePos(srcB, o, #res0)
+//@   ensures[C16] err == nil && n > 0 ==> nvSum(srcB, o, #res0 - 1) < n
+//@   ensures[C16] err == nil && n <= 0 ==> #res0 == 1
+//@   ensures[C16] err == nil ==> forall u in 0..#res0: hdrIs(res0[u], pagePos(srcB, o, u))
+//@ loop PageHeadersAtOffset#1
+//@   invariant[C16] srcPos == pagePos(srcB, o, #out) && nRead == nvSum(srcB, o, #out) && freshOrNil(out) && #out <= srcSize
+//@   invariant[C16] forall u in 0..#out: hdrIs(out[u], pagePos(srcB, o, u))
+//@   invariant[C16] readOne == (n > 0 || #out > 0)
+//@   invariant[C16] (n > 0 && #out > 0 ==> nvSum(srcB, o, #out - 1) < n) && (n <= 0 ==> #out <= 1)
+//@   invariant (rfault ==> old(rfault))
+
+//@ func PageHeaders
+//@   requires footer != nil && external(r)
+//@   modifies heap("parquet.readCounter"), srcPos, rfault, vPage, vDefs
+//@   ensures[C10] err == nil ==> (rfault ==> old(rfault))
+//@ loop PageHeaders#1
+//@   invariant (rfault ==> old(rfault)) && freshOrNil(pageHeaders)
+//@ loop PageHeaders#2
+//@   invariant (rfault ==> old(rfault)) && freshOrNil(pageHeaders)
